@@ -1125,7 +1125,7 @@ func c18QuotaOverRejecter(rep *vk.Report, i int) {
 
 func TestVerif_C18(t *testing.T) {
 	rep := vk.NewReport(t, "C18", "exploration")
-	rep.Rule = "a case is one session: a sequential REQ/CLOSE/COUNT/EVENT script (10-80 messages) plus EVENTs sent by the recording downstream handler, over alphabets of 2-6 subscription ids and 2-6 event ids, run through one shared middleware value (quota N in 1..4 or MaxInt, receive window 1..4, send window 1..4, alone or stacked in random order) together with 1-5 other sessions using the same ids, sometimes followed by a second wave of sessions on the same value; each step's outcome (seen downstream / CLOSED / OK-false / delivered / suppressed; in half of the sessions the downstream handler answers three quarters of the EVENTs that reach it with a tagged OK, accepted or refused, with and without machine-readable prefix, which the client waits for before the next message and which the models ignore) is compared with the session's own open-set and last-size-distinct-ids models; plus one session that sends 400000/2000000 distinct ids through a receive window of 60000 (none may be called a duplicate); non-trivial = the session reached a quota or window boundary (a REQ that had to be refused, a repeat inside the window, or an id that had left the window); distinct = distinct (stack, per-step kind/id/outcome string)"
+	rep.Rule = "a case is one session: a sequential REQ/CLOSE/COUNT/EVENT script (10-80 messages) plus EVENTs sent by the recording downstream handler, over alphabets of 2-6 subscription ids and 2-6 event ids, run through one shared middleware value (quota N in 1..4 or MaxInt, receive window 1..4, send window 1..4, alone or stacked in random order) together with 1-5 other sessions using the same ids, sometimes followed by a second wave of sessions on the same value; each step's outcome (seen downstream / CLOSED / OK-false / delivered / suppressed; in half of the sessions the downstream handler answers three quarters of the EVENTs that reach it with a tagged OK, accepted or refused, with and without machine-readable prefix, which the client waits for before the next message and which the models ignore) is compared with the session's own open-set and last-size-distinct-ids models; plus one session that sends 400000/2000000 distinct ids through a receive window of 60000 (none may be called a duplicate); added later: the empty string as a subscription id; quota above NewMaxReqFiltersMiddleware(1) above a handler that keeps its open set: it never holds more than N ids, whatever the layers answer themselves; non-trivial = the session reached a quota or window boundary (a REQ that had to be refused, a repeat inside the window, or an id that had left the window); distinct = distinct (stack, per-step kind/id/outcome string)"
 	defer rep.Finish()
 
 	nGroups := vk.N(3000, 60000)
